@@ -302,7 +302,7 @@ def _values(rng, t, n):
 
 def cases(rng, tier):
     for gen in (int_cases, ext_cases, float_cases, smallest_cases, column_cases, interval32_cases, decimals_cases, reuse_cases,
-                strtable_cases, level_cases, params_cases, rewrite_cases, names_cases, encser_cases, cont_cases, spell_cases, origin_cases, widepack_cases, pathwrite_cases, session_cases, misuse_cases):
+                strtable_cases, level_cases, params_cases, rewrite_cases, names_cases, encser_cases, cont_cases, spell_cases, origin_cases, widepack_cases, pathwrite_cases, session_cases, misuse_cases, recompress_cases):
         for c in gen(rng, tier):
             rt = c.get("rt")
             if rt and rt.get("enc") in ("rle", "delta", "pack", "bytes", "compress_int", "compress_float"):
@@ -385,7 +385,7 @@ def params_cases(rng, tier):
             rt = {"enc": "params", "which": which, "st": st, "min": lo, "max": hi, "n": n,
                   "data": [repr(lo + (hi - lo) * rng.randint(0, n - 1) / (n - 1)) for _ in range(rng.randint(1, 12))]}
         elif which == "fixed":
-            f = rng.choice([2.5, 100.0, 0.5, 12.5, 1000.0, 3.0])
+            f = rng.choice([2.5, 100.0, 0.5, 12.5, 1000.0, 3.0, 0.01, 0.1, 1 / 3, 1e-3])
             rt = {"enc": "params", "which": which, "st": st, "factor": f,
                   "data": [repr(rng.randint(-400, 400) / f) for _ in range(rng.randint(1, 12))]}
         else:
@@ -553,6 +553,17 @@ def misuse_cases(rng, tier):
         else:
             xs = [repr(rng.choice([1.5, 2.25, -0.75, 3.0, 1e10, 0.1, 7.0])) for _ in range(rng.randint(1, 5))]
         yield {"kind": "misuse/" + which, "rt": {"enc": "misuse", "which": which, "ft": rng.choice(["f4", "f8"]), "data": xs}}
+
+
+
+def recompress_cases(rng, tier):
+    """compress() of data that ALREADY carries an encoding chain (lossy or not), of one row and of several: the result must hold the
+    array within the tolerance, whatever came in."""
+    for _ in range(10 if tier == "quick" else 100):
+        n = rng.choice([1, 1, 2, 5, 30])
+        xs = [repr(round(rng.uniform(-90, 90), rng.choice([2, 4, 6]))) for _ in range(n)]
+        yield {"kind": "recompress", "rt": {"enc": "recompress", "pre": rng.choice(["fixed10", "fixed100", "interval", "bytes", "none"]),
+                                            "ft": rng.choice(["f4", "f8"]), "tol": rng.choice([1e-6, 1e-6, 1e-4]), "data": xs}}
 
 
 
@@ -733,10 +744,11 @@ def smallest_cases(rng, tier):
 
 def column_cases(rng, tier):
     """oracle-only: BinaryCIFColumn with a mask: as_array() in every flavour must not alter the column; write -> read equal."""
-    for _ in range(40 if tier == "quick" else 800):
+    for _ in range(60 if tier == "quick" else 800):
         yield {"kind": "column", "rt": {"enc": "column", "n": rng.choice([1, 2, 4, 7]), "seed": rng.randint(0, 10 ** 9),
-                                        "flavour": rng.choice(["str", "int", "float"]),
-                                        "call": rng.choice(["as_array()", "as_array(str)", "as_array(masked)", "as_array(int,-1)", "as_array(float,nan)"])}}
+                                        "flavour": rng.choice(["str", "int", "int", "float"]),
+                                        "call": rng.choice(["as_array()", "as_array(str)", "as_array(masked)", "as_array(masked)", "as_array(masked)",
+                                                            "as_array(int,-1)", "as_array(float,nan)"])}}
 
 
 def float_cases(rng, tier):
@@ -785,6 +797,13 @@ def float_cases(rng, tier):
 
 def corpus():
     return [
+        # encoding parameters that float32 cannot hold exactly, through a real file (seeded C05-24: msgpack use_single_float)
+        {"kind": "params/fixed", "rt": {"enc": "params", "which": "fixed", "st": "py", "factor": 0.01, "data": ["100.0", "-2500.0", "300.0"]}},
+        {"kind": "params/fixed", "rt": {"enc": "params", "which": "fixed", "st": "float64", "factor": 1 / 3, "data": ["3.0", "-9.0", "30.0"]}},
+        {"kind": "params/interval", "rt": {"enc": "params", "which": "interval", "st": "py", "min": 0.1, "max": 3.2, "n": 32, "data": ["0.1", "1.7", "3.2"]}},
+        # compress() of data that already carries a lossy chain, one row and several (seeded C05-23)
+        {"kind": "recompress", "rt": {"enc": "recompress", "pre": "fixed10", "ft": "f8", "tol": 1e-6, "data": ["1.2345"]}},
+        {"kind": "recompress", "rt": {"enc": "recompress", "pre": "interval", "ft": "f4", "tol": 1e-6, "data": ["12.34"]}},
         {"kind": "rle", "ops": ["rle_enc u32 - 4294967295,4294967295,0"], "rt": {"enc": "rle", "dtype": "u32", "data": [4294967295, 4294967295, 0]}},
         {"kind": "pack", "ops": ["pack_enc 1 s 127,-128,254,-256,0"], "rt": {"enc": "pack", "bc": 1, "u": "s", "data": [127, -128, 254, -256, 0]}},
         {"kind": "delta", "ops": ["delta_enc u8 250,3,255,0", "delta_dec u8 250 0,9,252,1"], "rt": {"enc": "delta", "dtype": "u8", "data": [250, 3, 255, 0]}},
@@ -1383,6 +1402,8 @@ def oracle(case):
         v += _spell_check(rt)
     elif kind == "misuse":
         v += _misuse_check(rt)
+    elif kind == "recompress":
+        v += _recompress_check(rt)
     elif kind == "widepack":
         v += _widepack_check(rt)
     elif kind == "pathwrite":
@@ -1438,7 +1459,8 @@ def _column_check(rt):
     if rt["flavour"] == "str":
         arr = np.array([r.choice(["A", "BB", "", "x y", "HOH", ".", "?"]) for _ in range(n)], dtype="U")
     elif rt["flavour"] == "int":
-        arr = np.array([r.randint(-500, 500) for _ in range(n)], dtype=np.int32)
+        # magnitudes from one to seven digits: the string form of a value can be longer or shorter than any masked_value
+        arr = np.array([r.choice([r.randint(-500, 500), r.randint(-9999999, 9999999), r.randint(0, 9)]) for _ in range(n)], dtype=np.int32)
     else:
         arr = np.array([round(r.uniform(-9, 9), 2) for _ in range(n)], dtype=np.float64)
     mask = np.array([r.choice([0, 0, 1, 2]) for _ in range(n)], dtype=np.uint8)
@@ -1450,7 +1472,12 @@ def _column_check(rt):
         elif call == "as_array(str)":
             col.as_array(str)
         elif call == "as_array(masked)":
-            col.as_array(str, masked_value="M")
+            mv = r.choice(["M", "n/a", "masked!", ""])
+            res = col.as_array(str, masked_value=mv)
+            want = [str(x) if m == 0 else mv for x, m in zip(arr.astype(str).tolist(), mask.tolist())]
+            if res.tolist() != want:
+                return [("C05/column/as_array-masked-value", f"as_array(str, masked_value={mv!r}) of {arr.tolist()} mask {mask.tolist()} gives {res.tolist()}, "
+                         f"the column says {want}")]
         elif call == "as_array(int,-1)":
             col.as_array(int, masked_value=-1)
         else:
@@ -1992,6 +2019,32 @@ def _misuse_check(rt):
 
 
 
+def _recompress_check(rt):
+    import math
+
+    import numpy as np
+    from biotite.structure.io.pdbx import bcif
+    from biotite.structure.io.pdbx import compress as _compress_fn
+    from biotite.structure.io.pdbx import encoding as E
+    dt = np.float32 if rt["ft"] == "f4" else np.float64
+    arr = np.array([float(x) for x in rt["data"]], dtype=dt)
+    pre = {"fixed10": [E.FixedPointEncoding(10), E.ByteArrayEncoding()], "fixed100": [E.FixedPointEncoding(100), E.ByteArrayEncoding()],
+           "interval": [E.IntervalQuantizationEncoding(-100.0, 100.0, 201), E.ByteArrayEncoding()], "bytes": [E.ByteArrayEncoding()], "none": None}[rt["pre"]]
+    try:
+        d = bcif.BinaryCIFData(arr.copy(), pre)
+        c = _compress_fn(d, float_tolerance=rt["tol"])
+        back = bcif.BinaryCIFData.deserialize(c.serialize()).array
+    except Exception as e:  # noqa: BLE001
+        return [("C05/compress/recompress-fails", f"compress() of {rt}: {type(e).__name__}: {e}")]
+    eps = 2.0 ** -23 if rt["ft"] == "f4" else 2.0 ** -52
+    for a, b in zip(arr.tolist(), back.tolist()):
+        if not (a == b or (math.isfinite(b) and abs(b - a) <= (rt["tol"] + 4 * eps) * abs(a))):
+            return [("C05/compress/recompress-keeps-lossy-encoding", f"compress(tol={rt['tol']}) of a {len(arr)}-row column that came with {rt['pre']}: {a!r} -> {b!r} "
+                     f"via {[type(e).__name__ for e in c.encoding]}")]
+    return []
+
+
+
 def _file_roundtrip(rt):
     """BinaryCIFFile with int/float/string columns and masks: write -> read (plain and compressed) equal."""
     import io
@@ -2045,7 +2098,7 @@ def _file_roundtrip(rt):
 
 
 def nontrivial(case, impl_out):
-    if case["kind"].split("/")[0] in ("file", "column", "interval32", "decimals", "reuse", "u64", "strtable", "level", "params", "rewrite", "names", "encser", "cont", "spell", "delta_origin", "widepack", "pathwrite", "session", "misuse"):
+    if case["kind"].split("/")[0] in ("file", "column", "interval32", "decimals", "reuse", "u64", "strtable", "level", "params", "rewrite", "names", "encser", "cont", "spell", "delta_origin", "widepack", "pathwrite", "session", "misuse", "recompress"):
         return True
     data = (case.get("rt") or {}).get("data")
     if data is not None and len(set(data)) >= 2:
